@@ -203,8 +203,8 @@ class Ctx:
             e.update(env or {})
             r = run_tlc(module, cfg, workers=1, env=e, timeout=timeout, heap=heap)
             if r.rc != 0 or not of.exists() or "No error has been found" not in r.out:
-                sys.stderr.write(r.out[-5000:])
-                raise MachineryError(f"trace validation {module}/{cfg} shard {i} failed (rc={r.rc}); "
+                errs = [ln for ln in r.out.splitlines() if "rror" in ln or "line " in ln][:12]
+                raise MachineryError("\n".join(errs) + f"\ntrace validation {module}/{cfg} shard {i} failed (rc={r.rc}); "
                                      f"trace kept at {tf}")
             vs = [json.loads(l) for l in of.read_text().splitlines() if l.strip()]
             if len(vs) != len(chunks[i]):
@@ -243,8 +243,11 @@ class Ctx:
             violations.append((o, v))
         for key, lst in known.items():
             print(f"KNOWN-FINDING: property={self.pid} {key}: {open_keys[key]['what']} ({len(lst)} cases this run)")
+        vf = OUT / f"{self.pid}_violations.ndjson"
+        if vf.exists():
+            vf.unlink()
         if violations:
-            with open(OUT / f"{self.pid}_violations.ndjson", "w") as f:
+            with open(vf, "w") as f:
                 for o, v in violations[:5000]:
                     f.write(json.dumps({"o": o, "v": v}) + "\n")
         shown = 0
